@@ -91,6 +91,13 @@ def run_case(case):
         case.get("layout", "C"), "ap" if case.get("arrparams") else "sp"]))
     wit = {k: case[k] for k in ("grid", "batch", "pts", "ccls", "kernel", "param", "width",
                                 "dt", "via", "cseed")}
+    cfloat = coord
+    if case["ccls"] == "integer" and np.array_equal(coord, np.round(coord)) and \
+            sum(case["rs"]) % 2 == 0:
+        # on-grid points handed over with an integer dtype (arange / mgrid): same points, same
+        # kernel sum - in particular the (fractional) width and parameter still apply
+        coord = coord.astype(np.int64)
+        sig += "|intcoord"
     x0, y0, c0 = x.copy(), y.copy(), coord.copy()
     try:
         if case["via"] == "func":
@@ -117,9 +124,9 @@ def run_case(case):
     width_l = w0.tolist() if w0.ndim else float(w0)
     param_l = p0.tolist() if p0.ndim else float(p0)
     ref_i, ab_i = O.interpolate(np.ascontiguousarray(x0).astype(
-        np.complex128 if dt.kind == "c" else np.float64), coord, kernel, width_l, param_l)
+        np.complex128 if dt.kind == "c" else np.float64), cfloat, kernel, width_l, param_l)
     ref_g, ab_g = O.gridding(np.ascontiguousarray(y0).astype(
-        np.complex128 if dt.kind == "c" else np.float64), coord, batch + grid, kernel, width_l,
+        np.complex128 if dt.kind == "c" else np.float64), cfloat, batch + grid, kernel, width_l,
         param_l)
     rel = 1e-12 if kernel == "spline" else 2e-6
     if dt == np.complex64:
@@ -156,5 +163,5 @@ def run_case(case):
                         "<x,Gy> = %s" % (lhs, rhs), wit, mech="transpose", obs=obs)
     taps_per_pt = float(np.max(ab_i > 0)) if ab_i.size else 0
     nontrivial = any(len(O.taps(c, grid, kernel, width_l, param_l)) >= 2
-                     for c in coord.reshape(-1, nd)[:5])
+                     for c in cfloat.reshape(-1, nd)[:5])
     return held(sig, obs, checks, nontrivial)
